@@ -18,6 +18,27 @@ ENV = dict(os.environ, GOFLAGS="-mod=mod", GOPROXY="off", GOSUMDB="off", GOTOOLC
 def run(cmd, **kw):
     return subprocess.run(cmd, shell=isinstance(cmd, str), capture_output=True, text=True, env=kw.pop("env", ENV), **kw)
 
+def suite(cwd):
+    """Runs the pinned suite. The root package talks to the LIVE kernel audit subsystem, so concurrent
+    suite runs (sub-agents, other probes) collide on the audit PID ('file exists'): serialise with a
+    lock file and retry when the only failures are of that kind."""
+    import fcntl
+    out = ""
+    for attempt in range(4):
+        with open("/tmp/.libaudit-suite.lock", "w") as lk:
+            fcntl.flock(lk, fcntl.LOCK_EX)
+            r = subprocess.run("go test -vet=off -count=1 ./... 2>&1 | grep -v 'no test files'", shell=True, cwd=cwd, env=ENV, capture_output=True, text=True)
+        out = r.stdout + r.stderr
+        ok = "FAIL" not in out and "panic:" not in out and out.count("ok ") >= 5
+        if ok:
+            return True, out
+        fails = [l for l in out.splitlines() if l.startswith("--- FAIL")]
+        collide = "file exists" in out or "Did you stop auditd" in out
+        if not (collide and all(("SetPID" in l or "ClientClose" in l or "PendingACKs" in l or "Multicast" in l) for l in fails)):
+            return False, out
+        time.sleep(1 + attempt)
+    return False, out
+
 def probe(mid, tier="quick", keep=False):
     m = MUTANTS[mid]
     root = f"/tmp/mut-{mid}"
@@ -32,8 +53,13 @@ def probe(mid, tier="quick", keep=False):
             shutil.rmtree(root, ignore_errors=True)
             return dict(id=mid, status="edit-failed", detail=f"{path}: pattern occurs {s.count(old)} times")
         open(p, "w").write(s.replace(old, new))
-    r = run("go build ./... && go vet -tags verif ./... >/dev/null 2>&1; go test -vet=off -count=1 ./... 2>&1 | grep -v 'no test files'", cwd=repo)
-    suite_ok = r.returncode == 0 and "FAIL" not in r.stdout and "ok " in r.stdout
+    b = run("go build ./... && go build -tags verif ./...", cwd=repo)
+    if b.returncode != 0:
+        suite_ok, sout = False, (b.stdout + b.stderr)
+    else:
+        suite_ok, sout = suite(repo)
+    class R: pass
+    r = R(); r.stdout, r.stderr = sout, ""
     res = dict(id=mid, props=m["props"], suite_passes=suite_ok, what=m.get("what", ""), results={})
     if not suite_ok:
         res["status"] = "suite-fails"
